@@ -27,8 +27,9 @@ RULE = ("corpus of hand-drawn scenes (bullseyes, shared holes, multi-parent clus
 TRUSTED = [
     "scipy.ndimage.label: the model takes blabels/count as an argument; C08_fill_labeled_holes_correct_img assumes "
     "Spec.valid_labelling (background pixels and only they are numbered 1..count; 4-adjacent background pixels share a "
-    "number); the verified boolean test labelling_ok_b of exactly that hypothesis is evaluated on scipy's output and on "
-    "the model's own flood fill label4 for every case, and label4's numbering is compared with scipy's",
+    "number); the verified boolean test labelling_ok_b of exactly that hypothesis is evaluated on scipy's output for "
+    "every case; for the model's own flood fill label4 the hypothesis is PROVED (C08_label4_valid) and label4's "
+    "numbering is compared with scipy's",
     "NumPy np.unique / np.lexsort / np.bincount / fancy indexing as transcribed (merge sort + adjacent de-duplication, "
     "bincount as a fold, Indexes.fwd_idx as an exclusive prefix sum): the transcription is compared array by array; "
     "what the transcribed arrays mean (symmetric duplicate-free adjacency, ragged index = neighbour lists) is proved",
